@@ -620,6 +620,52 @@ func (x *Exec) callCommon(st *State, c *ssa.CallCommon, i ssa.Value, pos token.P
 			x.dispatch(st, c, i, recv, args, sig, pos)
 			return true
 		}
+		if x.ifaceOfPurePkg(c) {
+			// method of an interface declared in a library package assumed not to write caller-visible memory
+			x.abstr["assumed-pure invoke "+typeStr(c.Value.Type())+"."+c.Method.Name()]++
+			if sig.Results().Len() > 0 {
+				setRes(fr, i, x.havocVal(st, resType(i, sig), "invoke"))
+			}
+			return true
+		}
+		// frame by effect analysis over the module's implementations of the method
+		if impls := x.implementers(c.Value.Type()); len(impls) > 0 {
+			union := map[string]bool{}
+			all := false
+			for _, t := range impls {
+				m := x.L.Prog.LookupMethod(t, c.Method.Pkg(), c.Method.Name())
+				if m == nil {
+					all = true
+					break
+				}
+				sm, a := x.modSummary(m)
+				if a {
+					all = true
+					break
+				}
+				for hn := range sm {
+					union[hn] = true
+				}
+			}
+			if !all {
+				x.abstr[fmt.Sprintf("frame by effect analysis (%d heaps) invoke %s.%s", len(union), typeStr(c.Value.Type()), c.Method.Name())]++
+				st.calls["effect:invoke "+typeStr(c.Value.Type())+"."+c.Method.Name()]++
+				x.assum["dynamic types of "+typeStr(c.Value.Type())+" limited to its implementations in the loaded module"] = true
+				names := make([]string, 0, len(union))
+				for n := range union {
+					names = append(names, n)
+				}
+				sort.Strings(names)
+				for _, n := range names {
+					x.havocHeap(st, n)
+				}
+				x.advanceNow(st)
+				if sig.Results().Len() > 0 {
+					setRes(fr, i, x.havocVal(st, resType(i, sig), "invoke"))
+				}
+				return true
+			}
+		}
 		x.abstr["invoke "+typeStr(c.Value.Type())+"."+c.Method.Name()]++
 		st.calls["effect:invoke "+typeStr(c.Value.Type())+"."+c.Method.Name()]++
 		x.havocAll(st)
